@@ -12,6 +12,9 @@ func checkC12(p *Prog, r *Report) {
 	checkSkipFileTable(p, r)
 	checkModTimeEqual(p, r, "C12/SECOND-GRANULARITY")
 	checkRequestTable(p, r)
+	// the mtime must actually be applied for repeat syncs to be no-ops
+	checkOptionGuardsAs(p, r, "C12/MTIME-APPLIED", true)
+	checkSetPermsPathsAs(p, r, "C12/MTIME-APPLIED-PATHS")
 	r.Trust("time.Time.Truncate/Equal semantics; bytes.Equal")
 	r.Uncovered("that equal decision tables imply equal behaviour for all timestamps; repeat-sync idempotence end to end (needs C11: mtime applied after the rename)")
 }
